@@ -13,6 +13,8 @@ core/engine/engine.go and core/plugin/constructor.go (`Pandora.Gen.InstLoop.star
   and the aggregator's `Run` (with the run context), `startInstances` (start context, run context, the run-result channel);
   the start context is derived from the run context, the run context from the pool's.  (The buffer sizes of the channels
   are regenerated too — `runAsyncChannels`, `runAsyncRunResBuf` — but nothing depends on them: every result is received.)
+* `callback_left`, `callback_next` — the finish-callback wrapper around the shared profile (core/coreutil/schedule.go)
+  returns what the profile answered and fires the callback exactly on `Left() = 0` / `Next()` not ok.
 * `factory_per_call` — the factory the plugin registry builds for a registered constructor (`NewRPSSchedule`, `NewGun` of a
   decoded pool) decodes the plugin's config AND calls the constructor at every call: with rps-per-instance every
   instance gets a schedule of its own (`Model.C03.step (.start i)`: `own[i] := tokens`).
@@ -46,6 +48,18 @@ theorem runAsync_eq :
        "chan:startRes <- startResult{startInstances(ctx:instanceStart, ctx:run, chan:runRes)}"] ∧
     Gen.InstLoop.runAsyncContexts = ["instanceStart = WithCancel(ctx:run)", "run = WithCancel(ctx:pool)"] :=
   ⟨rfl, rfl⟩
+
+/-- the wrapper the engine puts around the SHARED profile passes the answers of the profile on unchanged (the model's
+`chk` / `tokOk` / `tokEnd` are the profile's own) and fires the finish callback exactly when it tells an instance that
+the profile is finished -/
+theorem callback_left (left : Int) (h : 0 ≤ left) :
+    Gen.InstLoop.callbackLeft left = (left, decide (left = 0)) := by
+  unfold Gen.InstLoop.callbackLeft
+  (repeat' split) <;> simp_all <;> omega
+
+theorem callback_next (ok : Bool) : Gen.InstLoop.callbackNext ok = (ok, !ok) := by
+  unfold Gen.InstLoop.callbackNext
+  cases ok <;> simp
 
 theorem factory_per_call : Gen.InstLoop.factoryPerCall = ["getMaybeConf", "newPlugin.Call"] := rfl
 
